@@ -144,6 +144,60 @@ impl CssDestination for RuleDest<'_> {
     }
 }
 
+/// The destination for the body of an `@at-root` without a selector.
+///
+/// What is written here ends up outside of the enclosing rule, so
+/// declarations are refused as they are at the top level.
+pub struct AtRootDest<'a> {
+    parent: &'a mut dyn CssDestination,
+}
+
+impl<'a> AtRootDest<'a> {
+    pub fn new(parent: &'a mut dyn CssDestination) -> Self {
+        AtRootDest { parent }
+    }
+}
+
+impl CssDestination for AtRootDest<'_> {
+    fn head(&mut self) -> &mut CssData {
+        self.parent.head()
+    }
+    fn start_rule(
+        &mut self,
+        selectors: CssSelectorSet,
+    ) -> Result<RuleDest<'_>> {
+        Ok(RuleDest::new(self, selectors))
+    }
+    fn start_atmedia(&mut self, args: MediaArgs) -> AtMediaDest<'_> {
+        AtMediaDest::new(self, args)
+    }
+    fn start_atrule(&mut self, name: String, args: Value) -> AtRuleDest<'_> {
+        AtRuleDest::new(self, name, args)
+    }
+    fn start_nsrule(&mut self, _name: String) -> Result<NsRuleDest<'_>> {
+        Err(Invalid::GlobalNsProperty)
+    }
+
+    fn push_import(&mut self, import: Import) {
+        self.parent.push_import(import);
+    }
+    fn push_comment(&mut self, c: Comment) {
+        self.parent.push_comment(c);
+    }
+    fn push_item(&mut self, item: Item) -> Result {
+        self.parent.push_item(item)
+    }
+    fn push_property(&mut self, _name: String, _value: Value) -> Result {
+        Err(Invalid::DeclarationOutsideRule)
+    }
+    fn push_custom_property(&mut self, _: String, _: CssString) -> Result {
+        Err(Invalid::GlobalCustomProperty)
+    }
+    fn separate(&mut self) {
+        self.parent.separate();
+    }
+}
+
 pub struct NsRuleDest<'a> {
     parent: &'a mut dyn CssDestination,
     name: String,
